@@ -22,7 +22,7 @@ from harness.core import err_name, run_oracle_cases
 
 PROP = 'C14'
 PROOF_MODULES = ['Ladybug.Props.C14']
-GREP_MODULES = ['Ladybug.Model.Heap', 'Ladybug.Proofs.C14Lemmas', 'Ladybug.Proofs.C14Spec', 'Ladybug.Drv.C14', 'Ladybug.DrvCore',
+GREP_MODULES = ['Ladybug.Model.Heap', 'Ladybug.Proofs.C14Lemmas', 'Ladybug.Proofs.C14Spec', 'Ladybug.Proofs.C14Any', 'Ladybug.Drv.C14', 'Ladybug.DrvCore',
                 'Ladybug.Py']
 RULE = ('correspondence: random histories (1-3 source collections of the 5 classes and their immutable '
         'twins; up to 8 steps drawn from 20 deriving operations, WindRose construction and 8 mutators; '
@@ -47,7 +47,9 @@ ASSUMPTIONS = ['AnalysisPeriod objects have no public setters (sharing one is no
                'DataType objects are treated as immutable values']
 
 UNITS = ['C', 'F', 'K', 'X', 'kWh', 'kWh/m2', 'W', 'W/m2']
-DTYPES = {'Temperature': 0, 'Energy': 1, 'EnergyIntensity': 2, 'Power': 3, 'EnergyFlux': 4}
+DTYPES = {'Temperature': 0, 'Energy': 1, 'EnergyIntensity': 2, 'Power': 3, 'EnergyFlux': 4,
+          'DirectNormalIrradiance': 10, 'DiffuseHorizontalIrradiance': 11, 'GlobalHorizontalIrradiance': 12,
+          'DirectHorizontalIrradiance': 13, 'Irradiance': 14}
 BASE_UNIT = {'Temperature': 'C', 'Energy': 'kWh', 'EnergyIntensity': 'kWh/m2', 'Power': 'W', 'EnergyFlux': 'W/m2'}
 CLS = {'HourlyDiscontinuous': 'hd', 'HourlyContinuous': 'hc', 'Daily': 'daily', 'Monthly': 'monthly',
        'MonthlyPerHour': 'mph'}
@@ -141,8 +143,11 @@ def _b(x):
 def _kind(o):
     """'coll' | 'args' (a list holding a collection: the argument of compute_function_aligned) | 'list'."""
     from ladybug._datacollectionbase import BaseCollection
+    from ladybug.wea import Wea
     if isinstance(o, BaseCollection):
         return 'coll'
+    if isinstance(o, Wea):
+        return 'wea'
     if isinstance(o, list) and any(isinstance(x, BaseCollection) for x in o):
         return 'args'
     return 'list'
@@ -157,6 +162,12 @@ def obs_str(c, live=()):
     kind = _kind(c)
     if kind == 'list':
         return 'list V:' + ','.join(_frac(v) for v in c)
+    if kind == 'wea':
+        md = sorted((MKEYS.get(k, 99), _mv_any(v)) for k, v in c.metadata.items())
+        return 'comp0 T:%d,%s,%s M:%s L:%s { %s } { %s }' % (
+            c.timestep, _b(c.is_leap_year), _b(c.enforce_on_hour), ','.join('%d=%s' % kv for kv in md),
+            ';'.join(_loc_tokens(c.location)), obs_str(c.direct_normal_irradiance),
+            obs_str(c.diffuse_horizontal_irradiance))
     if kind == 'args':
         items = []
         for x in c:
@@ -179,33 +190,66 @@ def obs_str(c, live=()):
         ','.join(_frac(v) for v in c.values))
 
 
+def _loc_tokens(loc):
+    return [_mv(loc.source), _mv(loc.country), _mv(loc.city)]
+
+
 def _nested(c):
     return [v for v in c.header.metadata.values() if isinstance(v, list)]
+
+
+def _share_coll(r, o):
+    s = ''
+    if r.header is o.header:
+        s += 'h'
+    if r.header.metadata is o.header.metadata:
+        s += 'm'
+    if r.header.analysis_period is o.header.analysis_period:
+        s += 'a'
+    if r._values is o._values and isinstance(r._values, list):
+        s += 'v'
+    if any(x is y for x in _nested(r) for y in _nested(o)):
+        s += 'l'
+    return s
+
+
+def _share_sig(r, o):
+    """Collection `r` against live object `o`."""
+    kind = _kind(o)
+    if kind == 'coll':
+        return _share_coll(r, o)
+    if kind == 'list':
+        return 'v' if r._values is o else ''
+    if kind == 'wea':
+        return '/'.join(_share_coll(r, m) for m in (o.direct_normal_irradiance, o.diffuse_horizontal_irradiance)) \
+            + ('M' if r.header.metadata is o.metadata else '')
+    return ''
+
+
+def _only_seps(s):
+    return all(ch in '|/' for ch in s)
 
 
 def share_str(live, r):
     """Which parts of collection `r` are the same Python objects as parts of the live objects."""
     parts = []
     for j, o in enumerate(live):
-        s = ''
-        kind = _kind(o)
-        if kind == 'coll':
-            if r.header is o.header:
-                s += 'h'
-            if r.header.metadata is o.header.metadata:
-                s += 'm'
-            if r.header.analysis_period is o.header.analysis_period:
-                s += 'a'
-            if r._values is o._values and isinstance(r._values, list):
-                s += 'v'
-            if any(x is y for x in _nested(r) for y in _nested(o)):
-                s += 'l'
-        elif kind == 'list':
-            if r._values is o:
-                s += 'v'
-        if s:
+        s = _share_sig(r, o)
+        if not _only_seps(s):
             parts.append('%d:%s' % (j, s))
     return 'share=' + ','.join(parts)
+
+
+def share_str_wea(live, w):
+    parts = []
+    mem = (w.direct_normal_irradiance, w.diffuse_horizontal_irradiance)
+    for j, o in enumerate(live):
+        s = '|'.join(_share_sig(m, o) for m in mem)
+        if _kind(o) == 'wea' and o.location is w.location:
+            s += 'L'
+        if not _only_seps(s):
+            parts.append('%d:%s' % (j, s))
+    return 'share=%s int=%s' % (','.join(parts), _share_coll(mem[0], mem[1]))
 
 
 def snapshot(c):
@@ -215,6 +259,10 @@ def snapshot(c):
         return ('list', tuple(c))
     if kind == 'args':
         return ('args', tuple(id(x) if _kind(x) == 'coll' else x for x in c))
+    if kind == 'wea':
+        return ('wea', snapshot(c.direct_normal_irradiance), snapshot(c.diffuse_horizontal_irradiance),
+                json.dumps(c.metadata, sort_keys=True, default=str), tuple(_loc_tokens(c.location)),
+                (c.timestep, c.is_leap_year, c.enforce_on_hour))
     h = c.header
     return (type(c).__name__, tuple(c.values), h.unit, type(h.data_type).__name__,
             tuple(_ap_tokens(h.analysis_period)), json.dumps(h.metadata, sort_keys=True, default=str),
@@ -469,7 +517,10 @@ def gen_derive(rng, infos, malformed):
     on = rng.choice(colls)
     me = infos[on]
     op = rng.choice(DERIVE_OPS)
-    if me['dtype'] != 'Temperature':
+    if me['dtype'] not in BASE_UNIT:            # irradiance types of a Wea: no conversion / normalisation
+        if op in CONV_OPS or op in ENERGY_OPS:
+            return gen_derive(rng, infos, malformed)
+    elif me['dtype'] != 'Temperature':
         if op in CONV_OPS:                      # unit conversion is modelled for Temperature only
             op = rng.choice(ENERGY_OPS)
     elif op in ENERGY_OPS and rng.random() < 0.7:
@@ -731,6 +782,11 @@ def _info(c, live=()):
     if kind == 'args':
         first = [i for i, o in enumerate(live) if o is c[0]]
         return {'kind': 'args', 'first': first[0] if first else -1}
+    if kind == 'wea':
+        d = c.direct_normal_irradiance
+        return {'kind': 'wea', 'cls': CLS[d._collection_type], 'n': len(d.values),
+                'dts': [_dt_token('hd', x) for x in d.datetimes], 'ap': _ap_tokens(d.header.analysis_period),
+                'meta': {}}
     cls = CLS[c._collection_type]
     md = c.header.metadata
     return {'kind': 'coll', 'cls': cls, 'n': len(c.values), 'dts': [_dt_token(cls, d) for d in c.datetimes],
@@ -745,26 +801,50 @@ def _obs_all(live):
     return ' # '.join(obs_str(o, live) for o in live)
 
 
+WEA_DERIVED = {'ghi': 12, 'dhi': 13, 'dir': 14}
+
+
+def _wea_from_dict(st):
+    """A Wea through Wea.from_dict (it builds its own two collections)."""
+    from ladybug.wea import Wea
+    dts = []
+    for t in st['dts']:
+        d = date(2017, 1, 1).fromordinal(date(2017, 1, 1).toordinal() + t // 1440)
+        dts.append([d.month, d.day, (t % 1440) // 60, t % 60])
+    data = {'type': 'Wea',
+            'location': {'type': 'Location', 'city': st['loc'][2], 'state': 'ST', 'country': st['loc'][1],
+                         'latitude': 40.0, 'longitude': -70.0, 'time_zone': -5.0, 'elevation': 10.0,
+                         'station_id': '1', 'source': st['loc'][0]},
+            'direct_normal_irradiance': list(st['dni']), 'diffuse_horizontal_irradiance': list(st['dhi']),
+            'timestep': 1, 'is_leap_year': False, 'datetimes': dts}
+    return Wea.from_dict(data)
+
+
+def _wea_member(w, k):
+    return w.direct_normal_irradiance if k == 0 else w.diffuse_horizontal_irradiance
+
+
 def exec_step(live, st):
     """Execute one plain step on the real objects (appending new live objects).
-    Returns (status text, model command) or None when the step is to be dropped."""
+    Returns a list of (status text, model command) – one per model command – or None when the step is
+    to be dropped."""
     k = st['k']
     if k == 'new':                                   # a source; 'vr': values = the caller's list live[vr]
         try:
             c = build_obj(st['spec'], None if st.get('vr') is None else live[st['vr']])
         except Exception as e:
-            return 'err:' + err_name(e), cmd_new(st['spec'], st['spec']['cls'] == 'hc', st.get('vr'))
+            return [('err:' + err_name(e), cmd_new(st['spec'], st['spec']['cls'] == 'hc', st.get('vr')))]
         cmd = cmd_new(st['spec'], c.validated_a_period, st.get('vr'))
         status = 'ok %d %s' % (len(live), share_str(live, c))
         live.append(c)
-        return status, cmd
+        return [(status, cmd)]
     if k == 'nl':
         live.append(list(st['v']))
-        return 'ok %d' % (len(live) - 1), 'nl ' + _lst(st['v'], _frac)
+        return [('ok %d' % (len(live) - 1), 'nl ' + _lst(st['v'], _frac))]
     if k == 'na':
         other = live[st['c']] if 'c' in st else st['s']
         live.append([live[st['i']], other])
-        return 'ok %d' % (len(live) - 1), 'na 2 c %d %s' % (st['i'], _operand(st))
+        return [('ok %d' % (len(live) - 1), 'na 2 c %d %s' % (st['i'], _operand(st)))]
     if k == 'lm':
         lst = live[st['on']]
         try:
@@ -777,7 +857,83 @@ def exec_step(live, st):
             status = 'err:' + err_name(e)
         cmd = 'lm %d ' % st['on'] + ('append %s' % _frac(st['x']) if st['op'] == 'append'
                                      else 'set %d %s' % (st['i'], _frac(st['x'])))
-        return status, cmd
+        return [(status, cmd)]
+    if k == 'wn':
+        cont = st['ap'][2] == 0 and st['ap'][5] == 23
+        cmd = 'wn %s %s %s %s %s %s %s' % (_lst(st['loc'], _mv), _lst([1, 0, 0]), _lst(st['ap']),
+                                           _lst(st['dts']), _lst(st['dni'], _frac), _lst(st['dhi'], _frac),
+                                           _b(cont))
+        try:
+            w = _wea_from_dict(st)
+        except Exception as e:
+            return [('err:' + err_name(e), cmd)]
+        status = 'ok %d %s' % (len(live), share_str_wea(live, w))
+        live.append(w)
+        return [(status, cmd)]
+    if k == 'wi':
+        from ladybug.wea import Wea
+        from ladybug.location import Location
+        cmd = 'wi %s %d %d' % (_lst(st['loc'], _mv), st['i'], st['j'])
+        try:
+            w = Wea(Location(st['loc'][2], 'ST', st['loc'][1], 40.0, -70.0, -5.0, 10.0, source=st['loc'][0]),
+                    live[st['i']], live[st['j']])
+        except Exception as e:
+            return [('err:' + err_name(e), cmd)]
+        status = 'ok %d %s' % (len(live), share_str_wea(live, w))
+        live.append(w)
+        return [(status, cmd)]
+    if k == 'wd':
+        w = live[st['on']].duplicate()
+        status = 'ok %d %s' % (len(live), share_str_wea(live, w))
+        live.append(w)
+        return [(status, 'wd %d' % st['on'])]
+    if k == 'wf':
+        w0 = live[st['on']]
+        a = dict(st['args'])
+        info = _info(w0, live)
+        cmd = 'wf %d ' % st['on'] + cmd_derive(0, st['op'], a, None, info).split(' ', 2)[2]
+        try:
+            if st['op'] == 'filter_pattern':
+                w = w0.filter_by_pattern(a['mask'])
+            elif st['op'] == 'filter_keys':
+                w = w0.filter_by_moys(a['keys'])
+            else:
+                w = w0.filter_by_analysis_period(_mk_ap(a['ap']))
+        except Exception as e:
+            return [('err:' + err_name(e), cmd)]
+        status = 'ok %d %s' % (len(live), share_str_wea(live, w))
+        live.append(w)
+        return [(status, cmd)]
+    if k == 'wr':
+        w = live[st['on']]
+        if st['what'] == 'ghi':
+            res = [w.global_horizontal_irradiance]
+        elif st['what'] == 'dhi':
+            res = [w.direct_horizontal_irradiance]
+        else:
+            res = list(w.directional_irradiance(45, 180))
+        out = []
+        for n, r in enumerate(res):
+            # the period object is the Wea's own, except for the three results of directional_irradiance
+            # that come from header.duplicate()
+            share_ap = st['what'] != 'dir' or n == 1
+            status = 'ok %d %s' % (len(live), share_str(live, r))
+            out.append((status, 'wr %d %d %s %s' % (st['on'], WEA_DERIVED[st['what']], _b(share_ap),
+                                                   _lst(r.values, _frac))))
+            live.append(r)
+        return out
+    if k == 'wm':
+        a = dict(st['args'])
+        a['_live'] = live
+        try:
+            apply_mutator(_wea_member(live[st['on']], st['mk']), st['op'], a)
+            status = 'ok'
+        except Exception as e:
+            status = 'err:' + err_name(e)
+        return [(status, 'wm %d %d %s' % (st['on'], st['mk'], cmd_mutator(0, st['op'], a).split(' ', 2)[2]))]
+    if k == 'ws':
+        live[st['on']].metadata[st['key']] = st['v']
+        return [('ok', 'ws %d %d %s' % (st['on'], MKEYS[st['key']], _mv(st['v'])))]
     a = dict(st['args'])
     if k == 'd':
         info = _info(live[st['on']], live)
@@ -796,7 +952,7 @@ def exec_step(live, st):
                 parts.append(share_str(live, r))
                 live.append(r)
             status = 'ok %d %s' % (n0, ' '.join(parts))
-        return status, cmd
+        return [(status, cmd)]
     if k == 'm':
         a['_live'] = live
         try:
@@ -804,14 +960,77 @@ def exec_step(live, st):
             status = 'ok'
         except Exception as e:
             status = 'err:' + err_name(e)
-        return status, cmd_mutator(st['on'], st['op'], a)
+        return [(status, cmd_mutator(st['on'], st['op'], a))]
     raise ValueError(k)
 
 
-def gen_step(rng, infos, malformed):
+def gen_wea_step(rng, infos, malformed, alias_ok):
+    weas = [j for j, o in enumerate(infos) if o['kind'] == 'wea']
+    colls = [j for j, o in enumerate(infos) if o['kind'] == 'coll']
+    r = rng.random()
+    if not weas or r < 0.2:
+        if alias_ok and rng.random() < 0.25:
+            hourly = [j for j in colls if infos[j]['cls'] in ('hd', 'hc')]
+            if hourly:
+                i = rng.choice(hourly)
+                same = [j for j in hourly if infos[j]['cls'] == infos[i]['cls'] and infos[j]['n'] == infos[i]['n']]
+                return {'k': 'wi', 'loc': ['src', 'Land', 'Town'], 'i': i, 'j': rng.choice(same)}
+        d1 = rng.randint(1, 3)
+        if rng.random() < 0.6:
+            ap = [1, d1, 0, 1, d1, 23, 1, 0]
+        else:
+            ap = [1, d1, 6, 1, d1 + rng.randint(0, 1), 18, 1, 0]
+        dts = [(d - 1) * 1440 + h * 60 for d in range(ap[1], ap[4] + 1) for h in range(ap[2], ap[5] + 1)]
+        return {'k': 'wn', 'loc': [rng.choice(['src', 'TMY']), 'Land', rng.choice(['Town', 'City'])], 'ap': ap,
+                'dts': dts, 'dni': [rng.randint(0, 900) for _ in dts], 'dhi': [rng.randint(0, 200) for _ in dts]}
+    on = rng.choice(weas)
+    me = infos[on]
+    if r < 0.3:
+        return {'k': 'wd', 'on': on}
+    if r < 0.5:
+        op = rng.choice(['filter_pattern', 'filter_keys', 'filter_ap'])
+        if op == 'filter_ap' and me['ap'][6] != 1:
+            op = 'filter_keys'
+        if op == 'filter_pattern':
+            a = {'mask': [rng.random() < 0.6 for _ in range(rng.choice([2, 3, me['n']]))] if not malformed else []}
+        elif op == 'filter_keys':
+            a = {'keys': sorted(rng.sample(me['dts'], rng.randint(1, min(6, me['n']))))}
+        else:
+            ap = list(me['ap'])
+            n1 = rng.randint(ap[1], ap[4])
+            ap[1], ap[4] = n1, rng.randint(n1, ap[4])
+            if rng.random() < 0.5:
+                ap[2], ap[5] = max(ap[2], 8), min(ap[5], 17)
+            a = {'ap': ap}
+        return {'k': 'wf', 'on': on, 'op': op, 'args': a}
+    if r < 0.65:
+        return {'k': 'wr', 'on': on, 'what': rng.choice(['ghi', 'dhi', 'dir'])}
+    if r < 0.92:
+        op = rng.choice(['set_values', 'set_item', 'meta_set', 'meta_append', 'meta_replace', 'set_item'])
+        a = {}
+        if op == 'set_values':
+            a['v'] = [rng.randint(50, 99) for _ in range(me['n'] + (1 if malformed else 0))]
+        elif op == 'set_item':
+            a['i'] = rng.randrange(-me['n'], me['n']) if not malformed else me['n'] + 3
+            a['x'] = rng.choice([99, 0.5])
+        elif op == 'meta_set':
+            a['k'] = rng.choice(['k1', 'source', 'k3'])
+            a['v'] = rng.choice([42, 'edited', [5, 6]])
+        elif op == 'meta_append':
+            a['k'] = rng.choice(['k1', 'source'])
+            a['x'] = 7
+        else:
+            a['m'] = rng.choice([{}, {'k1': [9]}])
+        return {'k': 'wm', 'on': on, 'mk': rng.randrange(2), 'op': op, 'args': a}
+    return {'k': 'ws', 'on': on, 'key': rng.choice(['city', 'k1']), 'v': rng.choice(['X', 3])}
+
+
+def gen_step(rng, infos, malformed, alias_ok=False):
     """One random step (plain data) given what is live."""
     colls = [j for j, o in enumerate(infos) if o['kind'] == 'coll']
     lists = [j for j, o in enumerate(infos) if o['kind'] == 'list']
+    if rng.random() < 0.14:
+        return gen_wea_step(rng, infos, malformed, alias_ok)
     r = rng.random()
     if r < 0.07:
         n = infos[rng.choice(colls)]['n'] if rng.random() < 0.8 else rng.randint(1, 5)
@@ -852,13 +1071,15 @@ def run_steps(steps, ctx=None):
     """Execute plain steps -> (model line, implementation trace, the steps that were kept)."""
     live, cmds, trace, kept = [], [], [], []
     for st in steps:
+        n0 = len(live)
         out = exec_step(live, st)
         if out is None:
             continue
-        status, cmd = out
-        cmds.append(cmd)
         kept.append(st)
-        trace.append(status + ' # ' + _obs_all(live))
+        for k, (status, cmd) in enumerate(out):
+            cmds.append(cmd)
+            shown = live[:n0 + k + 1] if len(out) > 1 else live
+            trace.append(status + ' # ' + _obs_all(shown))
     return 'H fixed ; ' + ' ; '.join(cmds), ' | '.join(trace), kept
 
 
@@ -879,13 +1100,16 @@ def run_history(rng, ctx=None, max_steps=8):
     live, cmds, trace, kept = [], [], [], []
 
     def do(st):
+        n0 = len(live)
         out = exec_step(live, st)
         if out is None:
             return
-        status, cmd = out
-        cmds.append(cmd)
         kept.append(st)
-        trace.append(status + ' # ' + _obs_all(live))
+        for k, (status, cmd) in enumerate(out):
+            cmds.append(cmd)
+            shown = live[:n0 + k + 1] if len(out) > 1 else live
+            trace.append(status + ' # ' + _obs_all(shown))
+        status = out[-1][0]
         if ctx:
             if st['k'] in ('d', 'm'):
                 ctx.count(('derive:' if st['k'] == 'd' else 'mutate:') + st['op'])
@@ -899,7 +1123,7 @@ def run_history(rng, ctx=None, max_steps=8):
     for _ in range(nsteps):
         malformed = rng.random() < 0.1
         infos = [_info(c, live) for c in live]
-        st = gen_step(rng, infos, malformed)
+        st = gen_step(rng, infos, malformed, alias_ok=ctx is not None)
         if ctx and st['k'] == 'd':
             me = infos[st['on']]
             ctx.count('derive_on:%s/%s' % (me['cls'], 'mut' if me['mutable'] else 'imm'))
@@ -915,6 +1139,27 @@ def _rat(tok):
     return Fraction(tok)
 
 
+def _obj_differ(mo, io):
+    """Compare two object descriptions token by token; `V:` fields numerically (1e-9 relative)."""
+    mf, jf = mo.split(' '), io.split(' ')
+    if len(mf) != len(jf):
+        return True
+    for x, y in zip(mf, jf):
+        if x == y:
+            continue
+        if not (x.startswith('V:') and y.startswith('V:')):
+            return True
+        mv = [t for t in x[2:].split(',') if t]
+        iv = [t for t in y[2:].split(',') if t]
+        if len(mv) != len(iv):
+            return True
+        for p, q in zip(mv, iv):
+            p, q = _rat(p), _rat(q)
+            if abs(p - q) > Fraction(1, 10 ** 9) * max(1, abs(p), abs(q)):
+                return True
+    return False
+
+
 def traces_differ(model, impl):
     """None when equal (values within 1e-9 relative), else a short description."""
     ms, is_ = model.split(' | '), impl.split(' | ')
@@ -927,19 +1172,8 @@ def traces_differ(model, impl):
         if len(mp) != len(ip):
             return 'step %d live count' % k
         for j, (mo, io) in enumerate(zip(mp[1:], ip[1:])):
-            if mo == io:
-                continue
-            mf, jf = mo.split(' '), io.split(' ')
-            if mf[:-1] != jf[:-1] or not mf[-1].startswith('V:') or not jf[-1].startswith('V:'):
-                return 'step %d object %d: model %r impl %r' % (k, j, mo, io)
-            mv = [x for x in mf[-1][2:].split(',') if x]
-            iv = [x for x in jf[-1][2:].split(',') if x]
-            if len(mv) != len(iv):
-                return 'step %d object %d values length' % (k, j)
-            for x, y in zip(mv, iv):
-                x, y = _rat(x), _rat(y)
-                if abs(x - y) > Fraction(1, 10 ** 9) * max(1, abs(x), abs(y)):
-                    return 'step %d object %d value %s vs %s' % (k, j, float(x), float(y))
+            if mo != io and _obj_differ(mo, io):
+                return 'step %d object %d: model %r impl %r' % (k, j, mo[:400], io[:400])
     return None
 
 
@@ -1164,8 +1398,8 @@ def check_history(inp):
     names = ('class', 'values', 'unit', 'data_type', 'period', 'metadata', 'datetimes', 'validated',
              'values_type')
     for n, st in enumerate(inp['steps']):
-        refs = [st.get('on', 0), st.get('vr') or 0, st.get('i', 0) if st['k'] == 'na' else 0,
-                st.get('c', 0) if st['k'] == 'na' else 0]
+        refs = [st.get('on', 0), st.get('vr') or 0, st.get('i', 0) if st['k'] in ('na', 'wi') else 0,
+                st.get('c', 0) if st['k'] == 'na' else 0, st.get('j', 0) if st['k'] == 'wi' else 0]
         a = st.get('args', {})
         refs += [a.get(x, 0) or 0 for x in ('c', 'j', 'r', 'args')]
         if any(r >= len(live) for r in refs):
@@ -1177,11 +1411,13 @@ def check_history(inp):
         except Exception as e:
             out = ('err:harness ' + type(e).__name__, '')
         status = out[0] if out else 'dropped'
-        target = st['on'] if st['k'] in ('m', 'lm') else None
+        target = st['on'] if st['k'] in ('m', 'lm', 'wm', 'ws') else None
+        if isinstance(out, list):
+            out = (out[-1][0], '')
         untouched = list(range(n0))
         if target is not None and status == 'ok':
             tgt = live[target]
-            immutable = _kind(tgt) == 'coll' and not tgt.is_mutable
+            immutable = _kind(tgt) == 'coll' and not tgt.is_mutable and st['k'] == 'm'
             if not immutable or st.get('op', '').startswith('meta_'):
                 untouched.remove(target)    # (metadata edits of immutables: reported separately)
         after = [snapshot(o) for o in live[:n0]]
